@@ -108,7 +108,9 @@ def decode_op(t):
     sel, p = t
     d = [(p >> (4 * i)) & 15 for i in range(4)]
     kind = ('add', 'add', 'remove', 'forget', 'forget', 'dispatch', 'dispatch', 'dispatch', 'deferred', 'arm', 'arm',
-            'arm', 'gc', 'deferred', 'strike', 'strike')[sel % 16]
+            'arm', 'gc', 'deferred', 'strike', 'strike', 'reset')[sel % 17]
+    if kind == 'reset':
+        return ['reset', d[0]]
     if kind in ('add', 'remove', 'forget'):
         return [kind, d[0] % 6]
     if kind in ('dispatch', 'deferred'):
@@ -122,10 +124,12 @@ def decode_op(t):
 
 
 def strategy():
-    op = st.tuples(st.integers(0, 15), worldops.packed(16 ** 4)).map(decode_op)
+    op = st.tuples(st.integers(0, 16), worldops.packed(16 ** 4)).map(decode_op)
     return st.fixed_dictionaries({
         'mode': st.integers(0, 1),
-        'handlers': st.lists(st.integers(0, 7), min_size=2, max_size=6),     # 0: a handler listening to nothing
+        'handlers': st.lists(st.integers(0, 15), min_size=2, max_size=6),    # 0: a handler listening to nothing; bit 3:
+        # the handler also declares the lifecycle callbacks on_add / on_remove (a World relays them through its queue
+        # while dispatching is disabled)
         'ops': worldops.chunked(op, 36),
         # which handlers exist and are registered before the history starts (a third of the cases: all of them)
         'reg': worldops.packed(64 * 3).map(lambda v: 63 if v % 3 == 0 else v // 3),
@@ -145,6 +149,7 @@ class Run:
         self.pending_violation = None
         self.closed = False
         self.executing = []
+        self.quiet = False
         self.outer = []
         self.ref_slot = {}
         self.perm = None
@@ -175,6 +180,11 @@ class Run:
             return cb
         for e in evs:
             ns[e] = make(e)
+        if mask >> 3 & 1:
+            def lifecycle(self, *args, **kwargs):
+                run.on_lifecycle(self, ix)
+            ns['__events__'].update(on_add='on_add', on_remove='on_remove')
+            ns['on_add'] = ns['on_remove'] = lifecycle
         return type('W%d' % ix, (), ns)
 
     def alive(self, i):
@@ -211,6 +221,12 @@ class Run:
                     self.kill(script[0], script[1], from_callback=cls_ix)
             finally:
                 self.executing.pop()
+
+    def on_lifecycle(self, receiver, cls_ix):
+        if receiver is None or not isinstance(receiver, self.classes[cls_ix]):
+            self.viol('callback_invoked_with_missing_receiver', event='on_add / on_remove', method_of_class=cls_ix)
+        if self.quiet:
+            self.viol('event_pending_at_clear_reached_a_former_handler_later', handler=cls_ix)
 
     def ping(self, cls_ix):
         cur = self.frame
@@ -384,6 +400,52 @@ class Run:
         i %= self.n
         if self.kill(i, 0):
             self.flags['forgotten_between_operations'] += 1
+
+    def op_reset(self, sel):
+        """clear() while events are pending: with dispatching disabled the program has events queued whose arguments
+        are handlers (a World queues the on_add / on_remove of handler components itself); clear() drops handlers
+        and pending events alike, so once the program lets go of its references every former handler is gone - and
+        nothing reaches anybody when dispatching is enabled again."""
+        self.d.dispatch_enabled = False
+        if self.mode == 1:
+            for i in range(self.n):
+                if not self.alive(i) and (i + sel) % 2 == 0:
+                    self.op_add(i)                  # a new handler component: its on_add waits in the queue
+            for i in range(self.n):
+                if self.alive(i) and self.entity[i] is not None and (i + sel) % 3 == 0:
+                    self.d.remove_component(self.entity[i], self.classes[i])    # its on_remove waits in the queue
+                    self.entity[i] = None
+                    self.registered[i] = False
+        else:
+            for i in range(self.n):
+                if self.alive(i) and (i + sel) % 2 == 0:
+                    self.d.dispatch(EVENTS[(i + sel) % 3], self.strong[i])      # an event whose argument is a handler
+        was_alive = [self.alive(j) for j in range(self.n)]
+        try:
+            self.d.clear()
+        except Exception as exc:
+            self.viol('clear_raised', exception=repr(exc))
+        for j in range(self.n):
+            self.registered[j] = False
+            self.entity[j] = None
+            self.strong[j] = None
+        self.scripts.clear()
+        gc.collect()
+        for j in range(self.n):
+            if was_alive[j] and self.weak[j] is not None and self.weak[j]() is not None:
+                self.viol('handler_kept_alive_after_last_reference_dropped', handler=j,
+                          after='clear() while events were pending',
+                          referrers=[type(r).__name__ for r in gc.get_referrers(self.weak[j]())][:6])
+        self.quiet = True
+        try:
+            self.d.dispatch_enabled = True
+        except PropertyViolation:
+            raise
+        except Exception as exc:
+            self.viol('dispatch_raised', exception=repr(exc), after='clear() while events were pending')
+        finally:
+            self.quiet = False
+        self.flags['clear_while_events_were_pending'] += 1
 
     def op_gc(self):
         gc.collect()
